@@ -222,6 +222,19 @@ pub fn start_node_opts(fabric: &Fabric, idx: u16, key: [u8; 32], name: &str, alt
     Ok(Node { net, addr, id, svc: shared, key })
 }
 
+/// a node whose top-level service exerts `poll_ready` back-pressure (one request at a time)
+pub fn start_node_limited(fabric: &Fabric, seed: u64, idx: u16, cfg: Config) -> anyhow::Result<Node> {
+    let key = key_of(seed, idx);
+    let addr = Fabric::addr(idx);
+    let sock = fabric.socket(addr);
+    let svc = Svc::new();
+    let shared = svc.shared();
+    let limited = tower::limit::ConcurrencyLimit::new(svc, 1);
+    let net = Network::bind("127.0.0.1:0").private_key(key).server_name("verif").config(cfg).verif_socket(sock).start(limited)?;
+    let id = net.peer_id();
+    Ok(Node { net, addr, id, svc: shared, key })
+}
+
 pub fn start_node(fabric: &Fabric, seed: u64, idx: u16, cfg: Config) -> anyhow::Result<Node> {
     start_node_with(fabric, idx, key_of(seed, idx), "verif", None, cfg)
 }
